@@ -749,26 +749,6 @@ def sim(cj, tracers):
 REPRO['not-saved:cj'] = _BPM + '''m = sim([1., 2., 3.], ['a', 'b', 'c']); m.save_sim(os.path.join(d, 'b.nc'), 'prf.nc', 'info')
 print(m.cj, bent_plume_model.Model(simfile=os.path.join(d, 'b.nc')).cj)     # [1. 2. 3.]  vs  3.0
 '''
-REPRO['not-restored:K_T:bpm-load-heat-off'] = '''import numpy as np, tempfile, os, io, contextlib
-from tamoc import ambient, dbm, dispersed_phases, bent_plume_model
-d = tempfile.mkdtemp(); z = np.linspace(0., 400., 30)
-T = 277. + 15. * np.exp(-z / 200.); S = 34. + z / 800.; P = ambient.compute_pressure(z, T, S, 0)
-nc = ambient.create_nc_db(os.path.join(d, 'prf.nc'), 's', 'src', 'sea', 0., 0., 0.)
-nc = ambient.fill_nc_db(nc, np.vstack((z, T, S, P)).T, ['z', 'temperature', 'salinity', 'pressure'], ['m', 'K', 'psu', 'Pa'], ['a'] * 4, 0)
-prf = ambient.Profile(nc, chem_names='all'); prf.close_nc()
-Ta = prf.get_values(300., ['temperature'])[0]
-oil = dbm.InsolubleParticle(True, True)
-# particle 4.7 K warmer than the water, jet 5 K warmer: at the first row the particle is within 0.5 K of the plume water
-m0, T0, nb0, P0, Sa, Tamb = dispersed_phases.initial_conditions(prf, 300., oil, np.array([1.]), 0.1, 2, 0.003, Ta + 4.7)
-p = bent_plume_model.Particle(0., 0., 300., oil, m0, T0, nb0, 0.9, P0, Sa, Tamb, K_T=0.6)
-m = bent_plume_model.Model(prf)
-with contextlib.redirect_stdout(io.StringIO()):
-    m.simulate(np.array([0., 0., 300.]), 0.2, 1., -np.pi / 2, 0., 0., Ta + 5., np.array([1.]), ['a'], [p], dt_max=60., sd_max=50.)
-    m.save_sim(os.path.join(d, 'b.nc'), 'prf.nc', 'info')
-    m2 = bent_plume_model.Model(simfile=os.path.join(d, 'b.nc'))
-print('original  K_T0', m.K_T0, 'particle K_T', m.particles[0].K_T)       # [0.6] 0.6
-print('reloaded  K_T0', m2.K_T0, 'particle K_T', m2.particles[0].K_T)     # [0.6] 0.0
-'''
 REPRO['save-raises:bpm:no-tracers'] = _BPM + '''m = sim([], []); m.save_sim(os.path.join(d, 'b.nc'), 'prf.nc', 'info')      # IndexError
 '''
 REPRO['load-raises:bpm:no-profile'] = _BPM + '''m = sim([1.], ['a']); m.save_sim(os.path.join(d, 'b.nc'), 'moved_away.nc', 'info')
@@ -1205,9 +1185,8 @@ def is_0d(x):
 def pstates(m):
     """the state LagElement.update left in the particles of a (re)loaded bent-plume model"""
     out = [N(len(m.particles))]
-    for i, p in enumerate(m.particles):
-        heat_off = fnum(p.K_T) == 0. and fnum(np.ravel(m.K_T0)[i]) != 0.
-        out += [B(heat_off), B(bool(p.integrate)), F(fnum(p.t)), F(fnum(p.x)), F(fnum(p.y)), F(fnum(p.z))]
+    for p in m.particles:
+        out += [B(bool(p.integrate)), F(fnum(p.t)), F(fnum(p.x)), F(fnum(p.y)), F(fnum(p.z))]
     return out
 
 
@@ -1322,17 +1301,14 @@ def check_sim(ctx, job, cdir, kind, m, spec, tag):
         ctx.evaluations += int(np.size(arr))
     override = {}
     if kind == 'bpm':
-        # recorded defect: LagElement.update at the first row switches K_T off for a particle within 0.5 K of the plume water
-        # and load_sim (unlike simulate) never restores it from K_T0.  Signature verified here: original K_T > 0, reloaded
-        # K_T == 0, the reloaded model's K_T0 still right, and the first-row temperatures (computed by the harness from
-        # the state vector) within 0.5 K of each other.
+        # LagElement.update at the first row switches K_T off for a particle within 0.5 K of the plume water; load_sim
+        # restores K_T from K_T0 right afterwards (repaired in /repo; before, the reloaded particle kept K_T = 0).  The
+        # situation is generated in every run (coverage obligation) so that a return of the defect shows as
+        # not-restored:K_T — an ordinary violation.
         Te, Tp = row0_temperatures(rec)
-        for i, (pa, pb) in enumerate(zip(rec['particles'], rec2['particles'])):
-            near_jet = abs(Te - Tp[i]) < 0.5
-            if near_jet and pa['K_T'] > 0.:
+        for i, pa in enumerate(rec['particles']):
+            if abs(Te - Tp[i]) < 0.5 and pa['K_T'] > 0.:
                 ctx.count('bpm particle with K_T > 0 within 0.5 K of the plume water at the first row')
-            if pa['K_T'] > 0. and pb['K_T'] == 0. and same(np.ravel(rec2['K_T0'])[i], pa['K_T']) and near_jet:
-                override['particles[%d].K_T' % i] = 'not-restored:K_T:bpm-load-heat-off'
     report_losses(ctx, diff_model(kind, rec, rec2, GROUP_TOL, state=False), rec['particles'], where, spec,
                   chem=harness_chem(rec['particles']) if kind != 'sbm' else rec['composition'], skip=skip, override=override)
     if kind != 'sbm' and list(rec['chem_names']) != harness_chem(rec['particles']):
